@@ -38,6 +38,15 @@ M = {
     "c03_rounding_although_off": (["C03", "C10"], [(S + "interface.py",
         "    if rounding:\n        functions = _add_rounding_to_functions(functions, params)",
         "    if rounding or len(functions) > 150:\n        functions = _add_rounding_to_functions(functions, params)")]),
+    # ---- C05 (supplied column ignored although the warning is given)
+    "c05_rounded_rules_not_overridden": (["C05"], [(S + "functions_loader.py",
+        """        if k in data_cols:
+            functions_overridden[k] = v
+        else:""", """        if k in data_cols:
+            functions_overridden[k] = v
+            if hasattr(v, "__info__") and "params_key_for_rounding" in v.__info__:
+                functions_not_overridden[k] = v
+        else:""")]),
     # ---- C04
     "c04_auto_sums_from_targets_only": (["C04"], [(S + "functions_loader.py",
         """    potential_agg_cols = set(
